@@ -79,7 +79,9 @@ fn margin_ms(p: &Plan) -> u64 {
             m += 600 * u64::from(e.max_delay_ms);
         }
     }
-    m + if p.proc_stall_16 > 0 { 400 } else { 0 }
+    // a burst above the mailbox capacity keeps the receiver waiting for the slow handler
+    let bursts = p.frames.iter().filter(|f| f.kind == "burst").count() as u64;
+    m + if p.proc_stall_16 > 0 { 400 } else { 0 } + bursts * 3_000
 }
 
 impl Scenario for C19 {
@@ -123,6 +125,7 @@ impl Scenario for C19 {
                 22 => if r.chance(1, 2) { "gap" } else { "kill" },
                 _ => "checkpoint",
             };
+            let kind = if kind == "checkpoint" && r.chance(1, 4) { if r.chance(5, 6) { "junk_run" } else { "burst" } } else { kind };
             let target = if r.chance(1, 6) { 100 } else { r.below(u64::from(n_procs)) as u32 };
             let gap_ms = match r.below(6) {
                 0 => r.below(100),
@@ -152,6 +155,13 @@ impl Scenario for C19 {
             yield_mask: r.next_u64() | r.next_u64(),
             salt: r.next_u64(),
         };
+        let mut p = p;
+        if p.frames.iter().any(|f| f.kind == "burst") {
+            // a thousand frames through a byte-at-a-time, pausing reader would take simulated minutes:
+            // bursts run on a calm link (the point is the mailbox, not the socket)
+            p.client = EndCfg { chunking: Chunking::Random, latency_ms: p.client.latency_ms.min(5), short_writes: p.client.short_writes, ..Default::default() };
+            p.server = EndCfg { chunking: Chunking::Random, latency_ms: p.server.latency_ms.min(5), ..Default::default() };
+        }
         serde_json::to_value(p).unwrap()
     }
 
@@ -160,7 +170,10 @@ impl Scenario for C19 {
             Ok(p) => p,
             Err(_) => return RunOutput::default(),
         };
-        if p.n_procs < 1 || p.n_procs > 8 || p.tick_ms == 0 {
+        if p.n_procs < 1 || p.n_procs > 8 || p.tick_ms < 500 {
+            return RunOutput::default();
+        }
+        if p.frames.iter().any(|f| f.kind == "burst") && (p.client.spurious_16 > 0 || p.client.chunking == Chunking::Byte || p.server.stall_16 > 0) {
             return RunOutput::default();
         }
         let world = World::new(tape, keep, p.salt);
@@ -175,7 +188,7 @@ impl Scenario for C19 {
             components_stubbed: &["TCP (SimNet)", "EPMD (stub)", "remote node (scripted peer, independent encoder)"],
             assumptions: &["mid-frame delays stay below the read timeout; only idle gaps are long", "the peer's ticks are what a conforming OTP node sends (zero-length frames at its tick period)"],
             fault_prefixes: &["fault.", "net."],
-            expected_probes: &["probe.c19.delivered_send", "probe.c19.delivered_reg_send", "probe.c19.delivered_exit", "probe.c19.delivered_mon_exit", "probe.c19.rpc_reply_delivered", "probe.c19.dropped_unknown_recipient", "probe.c19.survived_junk", "probe.c19.survived_quiet_period", "probe.c19.deregistered_after_fatal", "probe.c19.reconnected", "probe.c19.checkpoint_ok", "probe.c19.near_miss_not_taken_as_reply", "probe.c19.killed_process_prefix_ok"],
+            expected_probes: &["probe.c19.delivered_send", "probe.c19.delivered_reg_send", "probe.c19.delivered_exit", "probe.c19.delivered_mon_exit", "probe.c19.rpc_reply_delivered", "probe.c19.dropped_unknown_recipient", "probe.c19.survived_junk", "probe.c19.survived_quiet_period", "probe.c19.deregistered_after_fatal", "probe.c19.reconnected", "probe.c19.checkpoint_ok", "probe.c19.near_miss_not_taken_as_reply", "probe.c19.killed_process_prefix_ok", "probe.c19.long_junk_run", "probe.c19.burst_above_mailbox_capacity"],
         }
     }
 }
@@ -420,6 +433,39 @@ async fn peer_conn(
                 w.stat("c19.gap");
                 tokio::time::sleep(Duration::from_millis(f.gap_ms)).await;
             }
+            "junk_run" => {
+                // a long run of consecutive undecodable frames (framing intact throughout), ticks mixed in
+                let n = 20 + (f.seed % 45) as usize;
+                let kinds = ["junk_garbage", "junk_notcontrol", "junk_marker", "junk_truncated"];
+                for j in 0..n {
+                    let jf = InFrame { kind: kinds[(f.seed as usize + j) % 4].to_string(), target: f.target, seed: f.seed.wrapping_add(j as u64), gap_ms: 0 };
+                    if let Some(frame) = build_frame(&p, k, &jf, &pids, &None, &mut exp.lock().unwrap()) {
+                        let _ = tx.send(Cmd::Frame(frame));
+                    }
+                    if j % 7 == 3 {
+                        let _ = tx.send(Cmd::Frame(wire::frame4(&[])));
+                    }
+                }
+                w.stat("probe.c19.long_junk_run");
+                w.ev(format!("peer: {} undecodable frames in a row", n));
+            }
+            "burst" => {
+                // more messages for one (slow) process than its mailbox holds: the receiver has to wait, nothing may be lost
+                let t = f.target as usize;
+                if t < pids.len() && !(p.kill_first && t == 0) && !exp.lock().unwrap().killed[t] {
+                    let n = 1010 + (f.seed % 60) as usize;
+                    for j in 0..n {
+                        let pl = Val::tuple(vec![Val::atom("remote"), Val::atom("send"), Val::int(k as i128), Val::int(j as i128)]);
+                        exp.lock().unwrap().per_proc[t].push(Got::Regular(pl.clone()));
+                        let frame = wire::frame4(&wire::pass_through(&Val::tuple(vec![Val::int(2), Val::atom(""), pids[t].clone()]), Some(&pl)));
+                        let _ = tx.send(Cmd::Frame(frame));
+                    }
+                    w.stat("probe.c19.burst_above_mailbox_capacity");
+                    w.ev(format!("peer: burst of {} messages to process {}", n, t));
+                    // give the slow handler time to work it off before the next step
+                    tokio::time::sleep(Duration::from_millis(10_000)).await;
+                }
+            }
             "kill" => {
                 let t = f.target as usize;
                 // never the last live process (probes and local traffic need one)
@@ -493,7 +539,15 @@ async fn scenario(w: &Arc<World>, p: &Plan) {
     let hist: Hist = Arc::new(Mutex::new(History::default()));
     let mut pids_ext = Vec::new();
     for i in 0..p.n_procs as usize {
-        let rec = Recorder { idx: i, hist: hist.clone(), world: w.clone(), stall_16: p.proc_stall_16, max_stall_ms: if p.frames.iter().any(|f| f.kind == "kill") { 200 } else { 3 } };
+        let has_burst = p.frames.iter().any(|f| f.kind == "burst" && f.target as usize == i);
+        let rec = Recorder {
+            idx: i,
+            hist: hist.clone(),
+            world: w.clone(),
+            // with a burst in the plan every handler call takes a little (simulated) time, so the mailbox really fills
+            stall_16: if has_burst { 16 } else { p.proc_stall_16 },
+            max_stall_ms: if has_burst { 2 } else if p.frames.iter().any(|f| f.kind == "kill") { 200 } else { 3 },
+        };
         match node.spawn(rec).await {
             Ok(pid) => pids_ext.push(pid),
             Err(e) => {
